@@ -659,6 +659,16 @@ def r_heap(ctx):
                 "(capacity() then disagrees with the request: with_capacity/reserve/shrink do not keep their promises)", r)
         for e in allocs + reallocs + deallocs:
             pass
+    # the allocator is called from resize only (one owner of the allocation protocol)
+    for f in fx.fn_list:
+        if not (f["path"].startswith("mem::heap") or f["path"].startswith("<mem::heap")) or f["path"].startswith(rp):
+            continue
+        for b in f["blocks"]:
+            tm = b["term"]
+            if tm["k"] == "call" and "indirect" not in tm["callee"] and tm["callee"].get("crate") == "alloc" and tm["callee"]["name"] in ("alloc", "alloc_zeroed", "realloc", "dealloc"):
+                res.inst(sample={"allocator_call_outside_resize": f["path"]}, func=f["path"])
+                res.fail(f["path"], "allocator-call-site", "%s calls the allocator (%s) outside HeapMem::resize: the size/stride guards and layout bookkeeping of resize do not cover it"
+                         % (f["path"], tm["callee"]["name"]), span="%s:%s" % (f["span"]["file"], tm.get("line")))
     # Drop => resize(0)
     dp = None
     for im in fx.impls_of("core::ops::Drop"):
@@ -920,6 +930,23 @@ def r_iter(ctx):
                 ok = False
             if ok:
                 res.ok()
+    # any further method of the cursor iterator that moves a cursor is outside the checked discipline: fail closed
+    for im in fx.impls:
+        if im["self_ty"].get("path") != "iter::Iter" or (im.get("trait") or "") not in ("core::iter::Iterator", "core::iter::DoubleEndedIterator", "core::iter::ExactSizeIterator"):
+            continue
+        for it in im["items"]:
+            if not it["kind"].startswith("Fn") or it["name"] in ("next", "next_back", "size_hint", "len"):
+                continue
+            p2 = it["path"]
+            for tt, I in ctx.arms(p2) or []:
+                stores = [e for e in I.all_effects(("STORE",)) if e["path"][0] == ("P", 1)]
+                res.inst(sample={"extra_iterator_method": p2, "cursor_stores": len(stores)}, func=p2)
+                if stores:
+                    res.fail(p2, "unclassified-cursor-method", "`%s` overrides an iterator method and moves a cursor (%s := %s) outside the checked next/next_back discipline: "
+                             "index <= end, fusedness and exact size are not shown to be preserved" % (it["name"], ".".join(stores[0]["path"][1]), stores[0]["value"]),
+                             span=ctx.span_of(p2), kind="coverage-lost")
+                else:
+                    res.ok()
     # size_hint / len
     p = I0 + "Iterator>::size_hint"
     for tt, I in ctx.arms(p) or []:
@@ -1026,6 +1053,19 @@ def _has_region(t):
     return "'" in s or t.get("k") == "ref" or "&" in s
 
 
+def tcx_normalize(ctx, f, out):
+    """associated-type outputs (`<&'a AnyVec as IntoIterator>::IntoIter`) resolved through the impl's items"""
+    if out.get("k") != "alias":
+        return out
+    name = out["path"].rsplit("::", 1)[-1]
+    for im in ctx.fx.impls:
+        if any(it["path"] == f["path"] for it in im["items"]):
+            for it in im["items"]:
+                if it["name"] == name and "ty" in it:
+                    return it["ty"]
+    return out
+
+
 def r_sig(ctx):
     res = RuleResult("R-SIG")
     fx = ctx.fx
@@ -1045,7 +1085,17 @@ def r_sig(ctx):
         if f.get("impl_trait") and not f["impl_trait"].startswith("core::") and f["impl_trait"] not in exported_traits:
             continue      # crate-private trait: not callable by users
         if f.get("impl_self_ty", {}).get("s") == sig["inputs"][0].get("s"):
-            continue      # `self` by value whose type happens to be a reference (IntoIterator for &'a AnyVec): the output is tied to Self
+            # `self` by value whose type happens to be a reference (IntoIterator for &'a AnyVec): the output is tied to Self;
+            # but an exclusive handle must not come out of a shared reference
+            n += 1
+            res.inst(sample={"method": f["path"], "receiver": "self: " + sig["inputs"][0].get("s", ""), "output": out["s"]}, func=f["path"])
+            out_n = tcx_normalize(ctx, f, out)
+            if not sig["inputs"][0].get("mut") and _is_exclusive_out(out_n):
+                res.fail(f["path"], "shared-receiver-exclusive-handle", "`self: %s` (a shared reference) yields an exclusive handle (%s)" % (sig["inputs"][0]["s"], out_n["s"]),
+                         span=ctx.span_of(f["path"]))
+            else:
+                res.ok()
+            continue
         n += 1
         p = f["path"]
         res.inst(sample={"method": p, "receiver": f["self_kind"], "output": out["s"], "impl_level_regions": free}, func=p)
